@@ -146,3 +146,91 @@ Definition check_case (c : case) : bool :=
   | None => negb (c_ctor_ok c)
   | Some s => c_ctor_ok c && outs_eqb (fst (run (c_stream c) (c_elapsed c) s (c_ops c))) (c_outs c)
   end.
+
+(* ------------------------------------------------------------------------------------------------
+   Timed model of the stream grace period (stream.go:35-69, AbstractStreamPaginator.HasNext).
+   Each iteration of the polling loop takes ONE reading of the environment: the clock value it reads
+   (time.Now() / time.Since) and whether DryUp() — possibly called from another goroutine while
+   HasNext is blocked in its loop — has happened by then.  [reach] is timeReachLast:
+     - an item is available            -> timeReachLast := now; return true        (:37-40)
+     - the stream has no future        -> return false                             (:49-51)
+     - dry  and now - reach >= timeOut -> return false   (grace period elapsed)    (:52-55)
+     - not dry                         -> timeReachLast := now                     (:56-58)
+     - fetch the future page and loop                                              (:59-68)
+   Times are integers (milliseconds in the harness); the context is live. *)
+Inductive tres := TTrue | TNoFuture | TExpired | TFetchStop | TEnvExhausted.
+
+Record tstate := mkT {
+  t_it : option (list Z); t_rest : list page; t_futs : list (list page);
+  t_reach : Z;                    (* timeReachLast *)
+  t_env : list (Z * bool)         (* readings not yet consumed: (clock, DryUp already called) *)
+}.
+
+Fixpoint tloop (T : Z) (reach : Z) (i : option (list Z)) (r : list page) (futs : list (list page))
+         (env : list (Z * bool)) {struct futs} : tres * tstate :=
+  match env with
+  | [] => (TEnvExhausted, mkT i r futs reach [])
+  | (now, d) :: env' =>
+      let '(b, (i1, r1)) := has_next_pages i r in
+      if b then (TTrue, mkT i1 r1 futs now env')
+      else match futs with
+           | [] => (TNoFuture, mkT i1 r1 [] reach env')
+           | seg :: fs =>
+               if d && (T <=? now - reach)%Z then (TExpired, mkT i1 r1 futs reach env')
+               else let reach' := if d then reach else now in
+                    match seg with
+                    | [] => (TFetchStop, mkT i1 r1 futs reach' env')
+                    | FetchFail :: _ => (TFetchStop, mkT i1 r1 futs reach' env')
+                    | IterFail :: r' => (TFetchStop, mkT None r' fs reach' env')
+                    | Page items :: r' => tloop T reach' (Some items) r' fs env'
+                    end
+           end
+  end.
+
+Definition t_has_next (T : Z) (s : tstate) : tres * tstate :=
+  tloop T (t_reach s) (t_it s) (t_rest s) (t_futs s) (t_env s).
+
+(* stream GetNext (stream.go:71-84) on a live context: AbstractPaginator.GetNext, which itself starts with HasNext;
+   when that finds nothing, the stream's HasNext polls. *)
+Definition t_get_next (T : Z) (s : tstate) : out * tstate :=
+  let '(b, (i1, r1)) := has_next_pages (t_it s) (t_rest s) in
+  match b, i1 with
+  | true, Some (x :: xs) => (OItem x, mkT (Some xs) r1 (t_futs s) (t_reach s) (t_env s))
+  | _, _ =>
+      match t_has_next T (mkT i1 r1 (t_futs s) (t_reach s) (t_env s)) with
+      | (TTrue, s1) =>
+          match t_it s1 with
+          | Some (x :: xs) => (OItem x, mkT (Some xs) (t_rest s1) (t_futs s1) (t_reach s1) (t_env s1))
+          | _ => (OErr EOther, s1)
+          end
+      | (_, s1) => (OErr ENotFound, s1)
+      end
+  end.
+
+Definition tstep (T : Z) (s : tstate) (o : op) : out * tstate :=
+  match o with
+  | HasNext => let '(b, s') := t_has_next T s in (OBool (match b with TTrue => true | _ => false end), s')
+  | GetNext => t_get_next T s
+  | _ => (OUnit, s)
+  end.
+
+Fixpoint trun (T : Z) (s : tstate) (ops : list op) : list out :=
+  match ops with
+  | [] => []
+  | o :: os => let '(x, s1) := tstep T s o in x :: trun T s1 os
+  end.
+
+(* a timed correspondence case: the schedule the harness imposes (nominal readings), the future segments it serves,
+   and the observations made on the real stream paginator *)
+Record tcase := mkTCase {
+  tc_T : Z; tc_reach0 : Z;
+  tc_items : list Z; tc_futs : list (list page); tc_env : list (Z * bool);
+  tc_ops : list op; tc_outs : list out
+}.
+
+Definition check_tcase (c : tcase) : bool :=
+  outs_eqb (trun (tc_T c) (mkT (Some (tc_items c)) [] (tc_futs c) (tc_reach0 c) (tc_env c)) (tc_ops c)) (tc_outs c).
+
+Inductive anycase := CPlain (c : case) | CTimed (c : tcase).
+Definition check_any (c : anycase) : bool :=
+  match c with CPlain c => check_case c | CTimed c => check_tcase c end.
